@@ -34,4 +34,19 @@ CLAIMS = {
          "Err types asserted at compile time through <E as FromStr>::Err / <E as TryFrom<&str>>::Error.",
          "DESIGN.md §6 C18", ""),
 }
+CLAIMS.update({
+ 'C04': ("Lean 4 proof: item table = filtered declaration list, collect = 0..N-1 via the C05 refinement, reverse, COUNT; correspondence with compiled derives",
+         "lean/StrumProofs/C04.lean: iter_table (by definition unfolding), iter_table_no_disabled, iter_collect, iter_rev, iter_count, iter_table_nodup - all definitions, no bound on the number of variants. "
+         "Correspondence: iter().collect(), rev().collect(), COUNT for enums of 0..12 variants, unit/tuple/named kinds, type/const generics, eight disabled placements.",
+         "DESIGN.md §6 C04", ""),
+ 'C05': ("Lean 4 proof: refinement of the (idx, back_idx) machine with usize = Nat mod 2^64 (debug: panic, release: wrap) to a list deque, every history by induction; correspondence in dev and release profiles",
+         "lean/StrumProofs/C05.lean + Lemmas/Iter.lean: nth_refines (all n), nextBack_refines, nthBack_refines (core's default body), sizeHint_refines, step_refines (clones as slots), run_refines / iter_refines (all histories, all depths), "
+         "never_panics, debug_eq_release, fused, clones_independent, iter_send_sync; F1 regression witnesses pinned_nth_panics_debug / pinned_nth_rewinds_release. "
+         "Correspondence: N = 0..8 (plain and disabled+generic), all histories to depth 2-3 (quick) / up to N+1 (thorough) with k in {0..N+1, MAX-1, MAX}, random 30-op histories with clones, size_hint, skip, step_by, both profiles, plus a Python reference deque.",
+         "DESIGN.md §6 C05", "Partial: Send + Sync is rustc's auto-trait inference; a three-line model + a compile-time assertion (incl. T = Rc<u8>). Hypothesis 2N+1 < 2^64 (N = number of enabled variants)."),
+ 'C08': ("Lean 4 proof: lengths and index alignment of COUNT / VariantNames / VariantArray / EnumIter; correspondence with compiled derives",
+         "lean/StrumProofs/C08.lean: count_eq, names_len, array_spec, array_rejects_data, aligned (position i refers to the same variant in all four when nothing is disabled). "
+         "Correspondence: field-less enums of 0..12 variants x disabled placement x explicit discriminants with repr x naming attributes x style x prefix; the four observables index by index.",
+         "DESIGN.md §6 C08", ""),
+})
 NOT_CLAIMED = {}
